@@ -89,6 +89,11 @@ def deps_record_rule(crate, prop, rule="C03.R5"):
                         ins_blocks.add(blk)
             ok = bool(ins_blocks) and b.all_paths_pass(0, ins_blocks, b.returns())
             r.inst(fn=path, records="Dependency::" + var, on_every_path=ok)
+            if not ins_blocks and not any(st["k"] == "assign" and st["rv"]["k"] == "agg" and (st["rv"].get("adt") or "").endswith("deps::Dependency") and st["rv"].get("variant") == var
+                                          for bx in crate.bodies for blk in range(bx.n) for st in bx.stmts(blk)):
+                # the kinds of entry are no longer the variants Type / Generics / Transitive: what is recorded is not read
+                r.fail(prop, "anchor-missing Dependency::%s" % var, "no value `Dependency::%s` is built anywhere: the entries are represented another way" % var, b.file(), b.line())
+                continue
             if not ok:
                 r.fail(prop, "dependency-not-recorded %s Dependency::%s" % (path, var),
                        "%s can return without inserting Dependency::%s: a type used by name after being inlined/flattened (or seen before) loses its import and its file" % (path, var),
